@@ -4,7 +4,7 @@ import numpy as np
 from lib import common as C, models as M
 
 GEN = ['BlockFacts', 'MultiplyBasis']
-IMPORTS = ['C03/basis_product', 'C03/mul_den', 'C03/rs_matrix_den', 'C03/rmatmul_den', 'C03/add_den', 'C03/dense_add_den', 'C14/compose_is_block_product', 'C14/apply_is_block_matvec', 'C14/pack_unpack_index']
+IMPORTS = ['C03/basis_product', 'C03/mul_den', 'C03/rs_matrix_den', 'C03/rmatmul_den', 'C03/add_den', 'C03/dense_add_den', 'C14/compose_is_block_product', 'C14/apply_is_block_matvec', 'C14/pack_unpack_index', 'C05/ge_solve_horizon_T', 'C07/dag_steady_state_fixed_point']
 TRUSTED = ['the topological sort returns a well-formed evaluation order (C15)', 'JacobianDict compose/update (C14), sparse operator algebra (C03)']
 ASSUMPTIONS = ['the chain-rule theorem is about the abstract forward accumulation; the tie is (a) structural facts extracted from combined_block.py/block.py and '
                '(b) exact correspondence on generated linear contemporaneous models at T=1 (integer coefficients)',
@@ -68,10 +68,44 @@ def correspondence(ctx):
             dis.append(dict(what='CombinedBlock.jacobian on a linear model (T=1)', case=c, impl=got, model=model))
     for l in logs:
         dis.append(dict(what='coq evaluation failed', log=l))
-    return dict(evaluations=len(cases), distinct_nontrivial=len({C.canon(c['blocks']) for c in cases}),
+    # second stream: Jacobians at horizons 3-6 of generated models with leads and lags vs the executable mixed sparse/dense model (Model/GET.v: symbolic forward accumulation)
+    from props import C05 as G5
+    nT = 32 if ctx['tier'] == 'quick' else 300
+    specsT = [G5.gen_get_model(rng) for _ in range(nT)]
+    modT = M.write_linear_models(f'c04T_{ctx["seed"]}_{ctx["tier"]}', [sp['blocks'] for sp in specsT])
+    casesT, exprsT = [], []
+    for mi, sp in enumerate(specsT):
+        objs = [getattr(modT, f'm{mi}_{b["name"]}') for b in sp['blocks']]
+        rng.shuffle(objs)
+        model = combine(objs, name=f'jt{mi}')
+        ss = model.steady_state({e: 1.0 for e in model.inputs})
+        T = sp['T']
+        ins = sp['Z'] + sp['U']
+        outs = [o for b in sp['blocks'] for o in b['outs']]
+        exprsT.append(f'run_jacT ({T})%Z {sp["N"]} [' + '; '.join(G5.coq_sblk(blk, ss, T) for blk in model.blocks) + f'] {G5.nl(ins)} {G5.nl(outs)}')
+        casesT.append(dict(spec=sp, listing=[o.name for o in objs], J=model.jacobian(ss, ins, outs, T=T), ins=ins, outs=outs))
+    valsT, logsT = C.eval_in_coq('C04', G5.HEADER_GET, exprsT, chunk=max(1, len(exprsT) // 16 + 1), tag='jacT')
+    for c, vm in zip(casesT, valsT):
+        J = c.pop('J')
+        if vm is None:
+            continue
+        T = c['spec']['T']
+        bad = [(o, i) for ii, i in enumerate(c['ins']) for oi, o in enumerate(c['outs'])
+               if np.abs(G5.dmat(J, o, i, T) - G5.frac_mat(vm[ii][oi])).max() > 1e-9 * max(1.0, np.abs(G5.frac_mat(vm[ii][oi])).max())]
+        if bad:
+            dis.append(dict(what='CombinedBlock.jacobian at horizon T differs from the executable forward accumulation over the mixed sparse/dense algebra', case=dict(c, differing=bad[:5])))
+    for l in logsT:
+        dis.append(dict(what='coq evaluation failed', log=l))
+    # third stream: steady state and nonlinear impulse of generated polynomial DAGs vs the executable model (evaluating the blocks one after another)
+    from lib import nlmodels as NL
+    metaD, exprsD, disD = NL.dag_correspondence(ctx, 'C04', 16 if ctx['tier'] == 'quick' else 160)
+    dis += disD
+    return dict(evaluations=len(cases) + len(exprsT) + len(exprsD), distinct_nontrivial=len({C.canon(c['blocks']) for c in cases}) + len({C.canon(c['spec']) for c in casesT}) + len({C.canon(m[0]['spec']) for m in metaD}),
                 rule='generated acyclic models of 2-5 linear contemporaneous simple blocks with integer coefficients (diamonds, multi-path outputs, shuffled listing '
-                     'order): model Jacobian at T=1 vs the abstract forward accumulation evaluated in the implementation\'s own block order',
-                samples=cases[:2], disagreements=dis, stats=dict(models=len(cases)))
+                     'order): model Jacobian at T=1 vs the abstract forward accumulation evaluated in the implementation\'s own block order; '
+                     'generated models with leads/lags (|shift| <= 2), horizons 3-6, shuffled listing: every (input, output) Jacobian vs the executable accumulation of Model/GET.v (1e-9); '
+                     'generated polynomial DAGs: steady state and nonlinear impulse vs the executable block-after-block evaluation of Model/NLSolve.v (1e-11)',
+                samples=cases[:2], disagreements=dis, stats=dict(models=len(cases), horizon_T_models=len(exprsT), nonlinear_dags=len(exprsD)))
 
 
 # ---------------------------------------------------------------------------------------------------
